@@ -71,6 +71,30 @@ def run_until(case):
     return {"nontrivial": "stop at busy instant" in classes, "classes": classes}
 
 
+def cond_strategy(tier):
+    from . import c05
+    return c05.strategy(tier)
+
+
+def run_cond(case):
+    """all_of / any_of events are ordinary occurrences too: triggered when their deciding operand is processed, they queue up
+    behind every ordinary occurrence of that instant triggered before them"""
+    res = kdsl.run_program(case)
+    nt, classes = classify(res.h)
+    h = res.h
+    conds = [o for o in h.occs if o.hev is not None and o.hev.kind == "C"]
+    behind = False
+    for c in conds:
+        for o in h.occs:
+            if o is not c and o.cls == "N" and o.due == c.due and o.seq < c.seq and (o.proc_step is None or o.proc_step > c.trig_step):
+                behind = True
+    if conds:
+        classes.add("condition occurrence")
+    if behind:
+        classes.add("condition triggered behind a pending ordinary occurrence of its instant")
+    return {"nontrivial": behind, "classes": sorted(classes)}
+
+
 PROP = Property(
     "C01",
     rule=("Hypothesis-generated kernel programs (1-12 processes, <=8 instructions each: timeouts with delays from a "
@@ -83,12 +107,15 @@ PROP = Property(
           "driven through numeric run(until=t) stops (t = pending due instants, grid offsets, offsets for which now+(t-now)!=t "
           "in floating point): the stop is a reference-agenda entry of the urgent class due at exactly t, so it must take effect "
           "at now == t, before ordinary events of t and after everything earlier; non-trivial = a stop at an instant with other "
-          "occurrences due."),
+          "occurrences due. Facet conditions: programs waiting on all_of/any_of trees; a condition is an ordinary occurrence "
+          "triggered when its deciding operand is processed and keeps its place in trigger order."),
     facets=[Facet("programs", strategy, run_case, quick=3000, thorough=20000,
                   essential=["urgent-after-normal", "same-class-tie>=2", "zero-delay chain", "float-sum instant",
                              "negative delay refused"]),
             Facet("until_stops", until_strategy, run_until, quick=1200, thorough=8000,
-                  essential=["stop at busy instant", "stop at float-inexact offset"])],
+                  essential=["stop at busy instant", "stop at float-inexact offset"]),
+            Facet("conditions", cond_strategy, run_cond, quick=1200, thorough=8000,
+                  essential=["condition triggered behind a pending ordinary occurrence of its instant"])],
     assumptions=["every event reaches the agenda through Environment.schedule (tracing subclass overrides it)",
                  "urgent/ordinary class is derived from the event type and the harness's own run(until) flag, not from the "
                  "priority argument", "one environment per case"],
